@@ -19,7 +19,7 @@ def gen_config(rng, tier):
         if rng.random() < 0.7:
             ops[k] = w * rng.choice([0.5, 1.0, 2.0])
     faults = [f for f in ("coin_force", "remeasure", "view_operand", "rejected_op") if rng.random() < 0.7]
-    return {"n": n, "steps": rng.randrange(4, 40), "ops": ops, "faults": faults,
+    return {"n": n, "steps": rng.randrange(4, 40) if tier != "thorough" else rng.randrange(4, 90), "ops": ops, "faults": faults,
             "flags": ["c05"], "max_slots": rng.choice([1, 2, 3, 4]), "dense": rng.random() < 0.3}
 
 
